@@ -258,24 +258,27 @@ def replay_tassign(cases, F, mon):
             continue
         # the same assignment when the LAST addressed column shares its storage with another live vector:
         # it must be refused with AliasError and change nothing (C01), also in the columns written "before" it
-        if len(idx0) > 1:
+        # (a second REGISTERED owner of a column's storage: a vector built over that very tuple)
+        for which in (idx0[1:] if len(idx0) > 1 else []):          # every addressed column but the first: the last, and the ones in the middle
             t3 = build()
-            keep_alive = t3.cols()[idx0[-1]] << []           # x << [] re-uses x's storage
-            if keep_alive._underlying is t3.cols()[idx0[-1]]._underlying:
+            keep_alive = Vector(t3.cols()[which]._underlying)
+            if keep_alive._underlying is t3.cols()[which]._underlying:
                 b3 = table_view(t3)
                 st3, _, e3 = attempt(lambda: form[1](t3))
                 ex += 1
                 if st3 == "ok":
                     F.add("shared_write_not_refused_note", c, "write to shared storage performed", "AliasError (or a local copy-on-write)", **info)
                 elif type(e3).__name__ == "AliasError" and not views_equal(b3, table_view(t3)):
-                    F.add("refused_changes_nothing", c, table_rows(t3), "table unchanged after AliasError", **info)
+                    F.add("refused_changes_nothing", c, table_rows(t3), "table unchanged after AliasError", shared_column=which, **info)
+                if list(keep_alive) != [x for x in b3["cols"][which]["vals"]]:
+                    F.add("refused_changes_nothing", c, {"the sharer now shows": list(keep_alive)}, b3["cols"][which]["vals"], shared_column=which, **info)
         # ... and when a column that is NOT addressed shares its storage: the write to the others must still succeed (C15)
         unaddressed = [u for u in range(w) if u not in idx0]
         if unaddressed:
             t4 = build()
             u = unaddressed[0]
             if len(t4.cols()[u]) and True:
-                partner = t4.cols()[u] << []
+                partner = Vector(t4.cols()[u]._underlying)
                 if partner._underlying is t4.cols()[u]._underlying:
                     st4, _, e4 = attempt(lambda: form[1](t4))
                     ex += 1
@@ -607,7 +610,8 @@ ARGS = {
 MORE_ARGS = {
     "str": {"startswith": [(("a", "B"),), (("ap", "ca"),), ("a", 1), ("p", 1, 3), ((),)], "endswith": [(("e", "a"),), ("a", 0, 1), (("ie", "na", ""),)],
             "count": [("a", 1), ("a", 0, 3), ("",)], "find": [("a", 1), ("a", 1, 3), ("",)], "rfind": [("a", 0, 2)], "index": [("a", 0)],
-            "split": [("a",), (None, 1), (" ", 1), ("p", -1)], "rsplit": [(" ", 1), (None, 1)], "strip": [("a",), ("ae",), (None,)],
+            "split": [("a",), (None, 1), (" ", 1), ("p", -1), (",", 1), ("X", 1)], "rsplit": [(" ", 1), (None, 1), (",", 1), ("X", 1), (",", 2)],
+            "rindex": [("a",)], "lower": [()], "upper": [()], "strip": [("a",), ("ae",), (None,)],
             "lstrip": [("a",), ("ab",)], "rstrip": [("e",), ("a e",)], "replace": [("a", "b", 1), ("", "-"), ("a", "")],
             "center": [(9, "*"), (0,)], "ljust": [(7, "."), (0,)], "rjust": [(7, "0")], "zfill": [(0,), (12,)],
             "encode": [("utf-8",), ("ascii", "ignore")], "expandtabs": [(2,)], "splitlines": [(True,)], "partition": [(" ",), ("pp",)],
@@ -617,7 +621,7 @@ MORE_ARGS = {
     "float": {"hex": [()], "is_integer": [()], "as_integer_ratio": [()]},
     "date": {"replace": [(2000,), (2001, 2, 3)], "strftime": [("%d/%m/%y",), ("",)], "isoformat": [()], "weekday": [()], "toordinal": [()]},
 }
-VALUES = {"str": ["apple pie", "Banana", "a", "", "cab a"], "int": [5, -3, 0, 1024], "float": [1.5, -2.25, 0.0, 8.0],
+VALUES = {"str": ["apple pie", "Banana", "a", "", "cab a", "a,b,c d,e", " x  y z ", "aXbXc"], "int": [5, -3, 0, 1024], "float": [1.5, -2.25, 0.0, 8.0],
           "date": [date(2020, 2, 29), date(1999, 12, 31), date(2024, 1, 1)]}
 
 
